@@ -189,6 +189,46 @@ def main(argv):
         if r.get("status") != "ok":
             return harness_fail(f"worker {r.get('worker')}: {r.get('error')}")
 
+    # 2b. coverage-guided stage (thorough tier, when atheris is available): libFuzzer drives the
+    # same Hypothesis strategy with coverage feedback from the circuitgraph package
+    fuzz_note = "not run (quick tier)"
+    if tier == "thorough" and os.environ.get("CGV_FUZZ", "1") != "0":
+        if not os.path.isdir(os.path.join(VERIF, ".deps", "atheris")):
+            fuzz_note = "not run (atheris not installed in .deps; run ./setup.sh)"
+        else:
+            q = subprocess.run([PY, "-c", "import importlib;m=importlib.import_module('cgv.props.%s');print(m.EXAMPLES['thorough'])" % prop.lower()],
+                               env=child_env(0), cwd=VERIF, capture_output=True, text=True)
+            try:
+                fruns = max(200, int(int(q.stdout.strip().splitlines()[-1]) * float(os.environ.get("CGV_SCALE", "1")) // 4))
+            except Exception:  # noqa: BLE001
+                fruns = 200
+            nfuzz = max(1, nworkers // 2)
+            fprocs = []
+            for w in range(nfuzz):
+                logf = open(os.path.join(outdir, f"f{w}.log"), "w")
+                fprocs.append((w, subprocess.Popen(
+                    [PY, "-m", "cgv.fuzz", prop, str(seed), str(w), str(nfuzz), outdir, str(fruns)],
+                    env=child_env(hs[w % len(hs)]), cwd=VERIF, stdout=logf, stderr=subprocess.STDOUT), logf))
+            ok_f = 0
+            bad_f = []
+            for w, pr, logf in fprocs:
+                try:
+                    pr.wait(timeout=max(1.0, deadline - time.time()))
+                except subprocess.TimeoutExpired:
+                    pr.kill()
+                logf.close()
+                rp = os.path.join(outdir, f"f{w}.json")
+                r = None
+                if os.path.exists(rp):
+                    with open(rp) as f:
+                        r = json.load(f)
+                if r is not None and r.get("status") == "ok" and "evaluations" in r:
+                    results.append(r)
+                    ok_f += 1
+                else:
+                    bad_f.append(w)
+            fuzz_note = f"{ok_f} libFuzzer workers x up to {fruns} cases" + (f"; workers {bad_f} gave no result (ignored)" if bad_f else "")
+
     # 3. merge
     import importlib
 
@@ -256,6 +296,8 @@ def main(argv):
             "known_findings_reported": [ln for ln in known_lines],
             "known_findings_not_reproducing": stale_known,
             "shim_selftest": shim_note,
+            "coverage_guided_stage": fuzz_note,
+            "coverage_guided_cases": sum(r.get("fuzz_cases", 0) for r in results),
             "exhaustive": False,
         },
         "assumptions": meta["assumptions"],
